@@ -78,8 +78,20 @@ PLAN = {
                   S("hookdbg-explore", tag="dbg-c01q", check="C01", only="qratio-arith"),
                   S("hookdbg-explore", tag="dbg-c05", check="C05", only="dev1"),
                   S("hookdbg-explore", tag="dbg-c06", check="C06"),
-                  S("hookdbg-explore", tag="dbg-c12", check="C12", only="scripts-small")],
-        "thorough": [S("hook-default"), S("hook-unsafe", tag="hook-unsafe"), S("m2-default-unsafe", tag="children"), S("m8-static-avx2-unsafe", tag="children-avx2"),
+                  S("hookdbg-explore", tag="dbg-c12", check="C12", only="scripts-small"),
+                  S("asan-default", tag="asan-c02", check="C02", only="body-fill", env={"ASAN_OPTIONS": "detect_leaks=0"}),
+                  S("asan-default", tag="asan-c07", check="C07", only="agg-backends", env={"ASAN_OPTIONS": "detect_leaks=0"}),
+                  S("asan-default", tag="asan-c14", check="C14", env={"ASAN_OPTIONS": "detect_leaks=0"})],
+        "thorough": [S("hook-default"), S("hook-unsafe", tag="hook-unsafe"),
+                  S("asan-default", tag="asan-c02", check="C02", only="body-w", env={"ASAN_OPTIONS": "detect_leaks=0"}),
+                  S("asan-default", tag="asan-c02f", check="C02", only="body-fill", env={"ASAN_OPTIONS": "detect_leaks=0"}),
+                  S("asan-default", tag="asan-c07", check="C07", only="agg-backends", env={"ASAN_OPTIONS": "detect_leaks=0"}),
+                  S("asan-default", tag="asan-c04", check="C04", env={"ASAN_OPTIONS": "detect_leaks=0"}),
+                  S("asan-default", tag="asan-c05", check="C05", only="dev1", env={"ASAN_OPTIONS": "detect_leaks=0"}),
+                  S("asan-default", tag="asan-c06", check="C06", env={"ASAN_OPTIONS": "detect_leaks=0"}),
+                  S("asan-default", tag="asan-c14", check="C14", env={"ASAN_OPTIONS": "detect_leaks=0"}),
+                  S("asan-default", tag="asan-c12", check="C12", only="scripts-small", env={"ASAN_OPTIONS": "detect_leaks=0"}),
+                  S("asan-nosimd", tag="asan-nosimd-c14", check="C14", env={"ASAN_OPTIONS": "detect_leaks=0"}), S("m2-default-unsafe", tag="children"), S("m8-static-avx2-unsafe", tag="children-avx2"),
                   S("dbg-unsafe", tag="children-dbg"),
                   S("hookdbg-explore", tag="dbg-c11", check="C11"),
                   S("hookdbg-explore", tag="dbg-c03", check="C03"),
